@@ -251,7 +251,7 @@ type SetCase struct {
 }
 
 func genSet(t *rapid.T) SetCase {
-	return SetCase{*hist.Gen(t, hist.Options{MaxOps: 10, BadMembers: true, RuntimeBad: true, ParseAfter: true, Unbalanced: rapid.Bool().Draw(t, "unbalanced"), ReadOnlyOps: false, Clones: rapid.IntRange(0, 3).Draw(t, "clones") == 0})}
+	return SetCase{*hist.Gen(t, hist.Options{MaxOps: 10, MixedHelpers: rapid.Bool().Draw(t, "mixedh"), BadMembers: true, RuntimeBad: true, ParseAfter: true, Unbalanced: rapid.Bool().Draw(t, "unbalanced"), ReadOnlyOps: false, Clones: rapid.IntRange(0, 3).Draw(t, "clones") == 0})}
 }
 
 func inertHistory(h hist.History) hist.History {
